@@ -201,7 +201,8 @@ class World(object):
     def begin_icall(self, integ, kind, t, y, h):
         rec = {"id": len(self.icalls), "op": self.op_index, "kind": kind, "depth": len(self.icall_stack),
                "t0": _c(t), "y0": _c(y), "h_req": _c(h), "attempts": [], "ok": None, "solves": [],
-               "nested": self.nested_integrate, "seq0": self.seq, "cls": type(integ).__name__, "integ": integ}
+               "nested": self.nested_integrate, "seq0": self.seq, "cls": type(integ).__name__, "integ": integ,
+               "rhs_k0": self.op_counts.get("rhs", 0)}
         self.icalls.append(rec)
         self.icall_stack.append(rec)
         return rec
@@ -210,6 +211,7 @@ class World(object):
         self.icall_stack.pop()
         rec["ok"] = exc is None
         rec["seq1"] = self.seq
+        rec["rhs_k1"] = self.op_counts.get("rhs", 0)
         if exc is not None:
             rec["exc"] = type(exc).__name__
             return
